@@ -220,8 +220,13 @@ pub struct Eng {
 impl Eng {
   pub fn new(c: &Value) -> Eng {
     let (server, cfg) = mk_cfg(c);
-    let e = new_engine(server, &cfg);
-    Eng { e, base: Instant::now(), dead: false }
+    let base = Instant::now();
+    let mut e = new_engine(server, &cfg);
+    if c.get("vclock").is_some() {
+      // virtual clock: the engine's construction stamp becomes virtual time 0
+      e.verif_set_last_activity(base);
+    }
+    Eng { e, base, dead: false }
   }
 
   /// apply one scripted input; returns the bytes sent
@@ -235,8 +240,23 @@ impl Eng {
     let base = self.base;
     let r = catch_unwind(AssertUnwindSafe(|| {
       let mut l: Vec<Vec<u64>> = Vec::new();
+      // virtual clock ("at": ms on a net / wrote input): the engine stamps activity with Instant::now();
+      // plant a sentinel, see whether the call stamped, and re-stamp with the scripted time
+      let at = i.get("at").and_then(|x| x.as_u64());
+      let saved = e.verif_last_activity();
+      let sentinel = base - Duration::from_secs(3600);
+      if at.is_some() {
+        e.verif_set_last_activity(sentinel);
+      }
       let out = if let Some(p) = i.get("net") {
         e.on_network_bytes(Bytes::from(pieces_bytes(p)))
+      } else if i.get("wrote").is_some() {
+        e.record_activity();
+        EngineOutput::new()
+      } else if i.get("deadline").is_some() {
+        let d = e.get_pong_deadline();
+        l.push(vec![91, d.is_some() as u64, d.map(|x| x.saturating_duration_since(base).as_millis() as u64).unwrap_or(0)]);
+        EngineOutput::new()
       } else if let Some(fs) = i.get("app") {
         let mut fb = FrameBatch::new();
         for f in fs.as_array().unwrap() {
@@ -252,6 +272,10 @@ impl Eng {
       } else {
         panic!("bad input {i}")
       };
+      if let Some(t) = at {
+        let stamped = e.verif_last_activity() != sentinel;
+        e.verif_set_last_activity(if stamped { base + Duration::from_millis(t) } else { saved });
+      }
       let sent = out_rows(&out, opaque, &mut l);
       (l, sent)
     }));
